@@ -15,6 +15,7 @@ import EaselModel.Stats.TevdReal
 import EaselModel.Stats.ExpBinnedReal
 import EaselModel.Stats.HistExpectReal
 import EaselModel.Stats.HistPlotRat
+import EaselModel.Stats.HistExpectSum
 /-! # C11 — property theorems (statements + glue only; lemmas live in `EaselModel/Stats/*`)
 
 Histogram half. `Hist` is the line-by-line model of `esl_histogram.c` (`EaselModel/Stats/Histogram.lean`), run bit-for-bit
@@ -168,6 +169,16 @@ theorem expected_tail_emin_in_range {α : Type} [Num α] (h : Hist α) (e : Expe
       ∃ ex, r.2.2.expect = some ex ∧ (ex.size : Int) = h.nb ∧ ∀ i : Nat, (i : Int) < r.2.2.emin → ex[i]? = some Num.zero) :=
   setExpectedTail_spec h e baseVal pmass cdf hnb
 
+/-- **The expected counts account for the law's mass** (ℝ, any cdf): after `SetExpect` the entries of `expect[]` add up to `Nc·(F(UBound(nb-1)) -
+    F(LBound(0)))`; after an accepted `SetExpectedTail` to `pmass·Nc·(F(UBound(nb-1)) - F(LBound(emin)))` — adjacent bins share their boundary, so no
+    expected mass is lost or counted twice. (`UBound(nb-1) = LBound(nb)`.) -/
+theorem expected_counts_account_for_the_mass (h : Hist ℝ) (e : Expect ℝ) (baseVal pmass : ℝ) (cdf : ℝ → ℝ) (hnb : 0 ≤ h.nb) :
+    (∃ ex, (h.setExpect e cdf).2.expect = some ex ∧ ex.toList.sum = (h.nc : ℝ) * (cdf (h.lbound h.nb) - cdf (h.lbound 0))) ∧
+    ((h.setExpectedTail e baseVal pmass cdf).1 = .ok →
+      ∃ ex, (h.setExpectedTail e baseVal pmass cdf).2.2.expect = some ex ∧
+        ex.toList.sum = pmass * (h.nc : ℝ) * (cdf (h.lbound h.nb) - cdf (h.lbound (h.setExpectedTail e baseVal pmass cdf).2.2.emin))) :=
+  ⟨setExpect_total h e cdf hnb, setExpectedTail_total h e baseVal pmass cdf hnb⟩
+
 /-- **`esl_histogram_Goodness` is memory-safe.** Every numeric class: on a well-formed histogram with `cmin ≥ 0` and `expect[]` as long as
     `obs[]`, the only way to the model's `.fault` (read outside `obs[]`/`expect[]`, write outside the `2·nb+1` re-bins, division by zero in
     `minc`) is the bin-number formula `2·(int) pow(nobs, 0.4) ≤ 0` for some `nobs ≥ 1`; in exact arithmetic that cannot happen. -/
@@ -187,6 +198,18 @@ theorem goodness_accounts_for_its_counts {α : Type} [Num α] (h : Hist α) (e :
     goodnessCount h.obs (h.imax + 1 - goodnessBase h e).toNat (goodnessBase h e) 0 = .val (binsObs bins) ∧
     (g.st = .ok → g.nbins = bins.length ∧ 0 < g.nbins - nfitted - 1) :=
   goodness_accounts h e nfitted g bins hg hne
+
+/-- **…and that range is the raw data above its threshold** (ℚ, any history of accepted values): `Σ obs[b..imax]`, the `nobs` of `Goodness`'s first
+    loop for a first evaluated bin `0 ≤ b ≤ imax+1` (so, by `goodness_accounts_for_its_counts`, the total of its re-bins), is the number of accepted
+    values above `LBound(b)`. -/
+theorem goodness_range_is_the_raw_data_above_its_threshold (h : Hist ℚ) (vs : List ℚ) (acc : Accounts h vs) (b : Int) (hb0 : 0 ≤ b) (hb1 : b ≤ h.imax + 1) :
+    goodnessCount h.obs (h.imax + 1 - b).toNat b 0 = .val (vs.countP (fun x => decide (h.bmin + b * h.w < x))) :=
+  goodnessCount_raw h vs acc b hb0 hb1
+
+/-- non-vacuity of `goodness_never_faults` / `goodness_accounts_for_its_counts`: a histogram over ℝ with one value in one bin and expectation 1
+    satisfies the hypotheses, and `esl_histogram_Goodness` gets as far as a non-empty re-binning holding that value -/
+example : (h1.WF ∧ IdxOK h1 ∧ 0 ≤ h1.cmin ∧ (∀ ex, e1.expect = some ex → (ex.size : Int) = h1.nb)) ∧
+    ∃ g bins, h1.goodness e1 0 = .val (g, bins) ∧ bins ≠ [] ∧ binsObs bins = 1 := ⟨h1_wf, goodness_example⟩
 
 /-- **`esl_histogram_Plot` accounts for the data** (ℚ, any history of accepted values `vs`): no read outside `obs[]`; one row per bin
     `imin..imax`, each with the number of accepted values in that bin's interval; the printed counts add up to `n`. -/
